@@ -171,7 +171,7 @@ class Ctx:
         return out
 
     # ------------------------------------------------------------ running
-    def run_family(self, fam, n, seed=None, extra=None, tag="", timeout=1200, model=True, model_family=None, env=None, binary=None):
+    def run_family(self, fam, n, seed=None, extra=None, tag="", timeout=1200, model=True, model_family=None, env=None, binary=None, expected_to_fail=False):
         seed = self.seed if seed is None else seed
         d = os.path.join(self.tmp, "%s%s.%d" % (fam, tag, seed))
         os.makedirs(d, exist_ok=True)
@@ -179,7 +179,12 @@ class Ctx:
         if extra:
             cmd += ["-extra", extra]
         t = time.time()
-        rc, out = sh(cmd, timeout=timeout, env=dict(GOENV, **(env or {})))
+        if getattr(self, "abort_runs", False) and not self.replay and not expected_to_fail:
+            # an earlier run already panicked or hung: that is the report; do not spend a timeout per remaining run
+            return {"dir": d, "rc": 0, "log": "", "family": fam, "seed": seed, "n": 0, "skipped": True, "stats": {}, "wall": 0}
+        rc, out = sh(cmd, timeout=timeout, env={**GOENV, "MPBH_HANG_MS": "30000", **(env or {})})
+        if rc != 0 and not expected_to_fail and ("hang" in out or "panic" in out or "fatal error" in out):
+            self.abort_runs = True
         res = {"dir": d, "rc": rc, "log": out, "family": fam, "seed": seed, "n": n}
         if model:
             rc2, out2 = sh([os.path.join(VERIF, "bin", "mpbmodel"), model_family or fam, d], timeout=timeout)
@@ -248,6 +253,9 @@ class Ctx:
             print("  " + v.what.replace("\n", "\n  ")[:1200])
         if real:
             return 1
+        if getattr(self, "internal_error", False):
+            print("ERROR property=%s internal error in the check (see evidence notes)" % self.prop)
+            return 2
         print("OK property=%s tier=%s seed=%d obligations=%d/%d evaluations=%d distinct_nontrivial=%d wall=%.1fs" % (
             self.prop, self.tier, self.seed, self.cov["discharged"], self.cov["obligations"],
             self.cov["evaluations"], self.cov["distinct_nontrivial"], time.time() - self.t0))
